@@ -47,6 +47,64 @@ class Obj:
         return sym(self.name)
 
 
+class Rec:
+    """Concrete abstract record with *value* semantics, supplied by a rule.
+
+    Unlike ``Obj`` a record never turns into a term: equality is identity, it is
+    hashable, so membership tests, ``Counter``, sets and dict keys over records
+    stay concrete (no fork per comparison).  Attributes are the given ``attrs``;
+    methods/properties of ``cls`` ("module:Class") resolve like for ``Obj``;
+    ``classes`` are the short class names ``isinstance`` accepts in addition.
+    Any rule-side class may take part through the same duck-typed protocol
+    (``sx_getattr(sx, attr, node)``, ``sx_isinstance(sx, cname)``,
+    ``sx_setattr(attr, value)``, ``sx_term()``)."""
+
+    def __init__(self, cls=None, label=None, classes=(), /, **attrs):
+        self.cls = cls
+        self.label = label or (cls or "rec")
+        self.classes = tuple(classes)
+        self.attrs = dict(attrs)
+
+    def __repr__(self):
+        return f"<{self.label}>"
+
+    def __deepcopy__(self, memo):
+        return self
+
+    def sx_term(self):
+        return sym(self.label)
+
+    def sx_setattr(self, attr, value):
+        self.attrs[attr] = value
+
+    def sx_isinstance(self, sx, cname):
+        if cname in self.classes:
+            return True
+        if self.cls:
+            return cname == self.cls.split(":")[-1].split(".")[-1] or cname in sx._bases(self.cls)
+        return False
+
+    def sx_getattr(self, sx, attr, node):
+        if attr in self.attrs:
+            return self.attrs[attr]
+        m = sx.find_method(self.cls, attr) if self.cls else None
+        if m is not None:
+            fn, _ = m
+            decos = [U(d).split(".")[-1].split("(")[0] for d in fn.decorator_list]
+            f = Func(fn, [], fn._module, fn._qual, bound=self)
+            if "property" in decos or "cached_property" in decos:
+                hk = ".".join(fn._qual.split(".")[-2:])
+                if hk in sx.hooks and callable(sx.hooks[hk]):
+                    return sx.hooks[hk](sx, [self], {})
+                if sx.inline(f"{fn._module.name}:{fn._qual}"):
+                    return sx._invoke(f, [], {}, node)
+                return T("attr", self.sx_term(), attr)
+            if "staticmethod" in decos:
+                f.bound = None
+            return f
+        sx.unsupported(node, f"attribute {attr} of the record {self.label} is not modelled")
+
+
 class Func:
     def __init__(self, node, frames, module, qual=None, bound=None):
         self.node, self.frames, self.module, self.qual, self.bound = node, frames, module, qual, bound
@@ -541,6 +599,8 @@ class Symex:
                 obj.attrs[t.attr] = v
             elif isinstance(obj, T):
                 self.effects.append(T("setattr", obj, t.attr, v))
+            elif hasattr(obj, "sx_setattr"):
+                obj.sx_setattr(t.attr, v)
             else:
                 self.unsupported(t)
         else:
@@ -968,6 +1028,8 @@ class Symex:
             return getattr(obj, attr)
         if isinstance(obj, Func) and attr == "__name__":
             return getattr(obj.node, "name", "<lambda>")
+        if hasattr(obj, "sx_getattr"):
+            return obj.sx_getattr(self, attr, node)
         self.unsupported(node, f"attribute {attr} of {type(obj).__name__}")
 
     def find_method(self, clsref, name, _seen=None):
@@ -1372,6 +1434,8 @@ class Symex:
                 if r is not None:
                     return r
             return T("isinstance", obj, cname)
+        if hasattr(obj, "sx_isinstance"):
+            return obj.sx_isinstance(self, cname)
         py = {"int": int, "str": str, "list": list, "tuple": tuple, "dict": dict, "set": set, "float": float,
               "bool": bool, "frozenset": frozenset}
         if cname in py:
@@ -1567,6 +1631,8 @@ def _freeze(v):
         return sym(v.name)
     if isinstance(v, slice):
         return T("slice_", v.start, v.stop, v.step)
+    if hasattr(v, "sx_term"):
+        return v.sx_term()
     return v
 
 
